@@ -55,6 +55,15 @@ EXPORT void* spqlios_keep_or_free(void* ptr, void* ptr2);
 #define CPU_SUPPORTS(xxxx) 0
 #endif
 
+#if defined(SPQLIOS_VERIF) && defined(__x86_64__)
+// verification hook (off by default): lets a simulator decide what the CPU reports.
+// With no hook installed, the detected value is returned unchanged.
+#undef CPU_SUPPORTS
+EXPORT int spqlios_verif_cpu_supports(const char* feature, int detected);
+EXPORT_DECL int (*spqlios_verif_cpu_hook)(const char* feature, int detected);
+#define CPU_SUPPORTS(xxxx) spqlios_verif_cpu_supports((xxxx), __builtin_cpu_supports(xxxx))
+#endif
+
 /** @brief returns the n bits of value in reversed order */
 EXPORT uint32_t revbits(uint32_t nbits, uint32_t value);
 
